@@ -48,7 +48,7 @@ var restrictedKinds = map[string]kindSet{
 	"(reflect.Value).MapRange": ks(21),
 }
 
-var kindNames = map[uint]string{17: "Array", 18: "Chan", 19: "Func", 20: "Interface", 21: "Map", 22: "Pointer", 23: "Slice", 24: "String", 26: "UnsafePointer"}
+var kindNames = map[uint]string{17: "Array", 18: "Chan", 19: "Func", 20: "Interface", 21: "Map", 22: "Pointer", 23: "Slice", 24: "String", 25: "Struct", 26: "UnsafePointer"}
 
 func (s kindSet) String() string {
 	if s == allKinds {
